@@ -40,6 +40,7 @@ const (
 	fLenientList    = "bracket-list-not-enforced"
 	fEmptyRoundTrip = "empty-mask-json"
 	fStrKeyJSON     = "strkey-json-escape"
+	fStrKeyUTF8     = "strkey-json-invalid-utf8"
 	fStringTypedef  = "string-typedef"
 	fFieldNonStruct = "field-on-container-mask"
 	fStringNested   = "string-star-nested-container"
